@@ -8,6 +8,7 @@ import (
 	"unicode/utf8"
 
 	"MODULE/restli"
+	common "MODULE/restlidata/generated/com/linkedin/restli/common"
 	verif "MODULE/zzverif"
 	"MODULE/zzvt/vt"
 	"MODULE/zzvt/vtr/parts"
@@ -204,6 +205,96 @@ func Harness_C02_BatchGet(n int) {
 	verif.Assert(len(seen) == 2 && (seen[0] == k1 && seen[1] == k2 || seen[0] == k2 && seen[1] == k1), "keys seen by the resource differ from the keys passed")
 	verif.Assert(err == nil, "client call failed")
 	verif.Assert(res != nil && len(res.Results) == 2 && res.Results[k1] != nil && res.Results[k1].Name == "one" && res.Results[k2] != nil && res.Results[k2].Name == "two", "batch results not filed under the caller's keys")
+	verif.Cover("fidelity")
+}
+
+// Harness_C02_BatchOutcomes: every mix of per-key outcomes of a batch call
+// (result / error / status only / nothing) comes back to the caller as the
+// resource returned it, including batches in which no key has a result.
+// op 0: batch_get, op 1: batch_delete.
+func Harness_C02_BatchOutcomes(op int) {
+	keys := []string{"a", "b"}
+	var outcome [2]int
+	for i := range outcome {
+		outcome[i] = verif.Choose(4)
+	}
+	allocEmpty := verif.Bool() // empty maps allocated or left nil by the resource
+	m := &mockThings{}
+	ge := &things.BatchEntities{}
+	de := &things.BatchResponse{}
+	if allocEmpty {
+		ge.Results, ge.Errors, ge.Statuses = map[string]*vt.Item{}, map[string]*common.ErrorResponse{}, map[string]int{}
+		de.Results, de.Errors, de.Statuses = map[string]*common.BatchEntityUpdateResponse{}, map[string]*common.ErrorResponse{}, map[string]int{}
+	}
+	status, msg := int32(404), "gone"
+	for i, k := range keys {
+		switch outcome[i] {
+		case 0:
+			ge.AddResult(k, &vt.Item{Name: "item-" + k})
+			de.AddResult(k, &common.BatchEntityUpdateResponse{Status: 204})
+		case 1:
+			ge.AddError(k, &common.ErrorResponse{Status: &status, Message: &msg})
+			de.AddError(k, &common.ErrorResponse{Status: &status, Message: &msg})
+		case 2:
+			ge.AddStatus(k, 204)
+			de.AddStatus(k, 204)
+		}
+	}
+	m.batch, m.batchResp = ge, de
+	tc, _, _ := c02Setup(m)
+	var nres, nerr, nstat int
+	var err error
+	okContent := true
+	if op == 0 {
+		var res *things.BatchEntities
+		res, err = tc.BatchGet(keys)
+		if err == nil && res != nil {
+			nres, nerr, nstat = len(res.Results), len(res.Errors), len(res.Statuses)
+			for i, k := range keys {
+				switch outcome[i] {
+				case 0:
+					okContent = okContent && res.Results[k] != nil && res.Results[k].Name == "item-"+k
+				case 1:
+					e := res.Errors[k]
+					okContent = okContent && e != nil && e.Status != nil && *e.Status == 404 && e.Message != nil && *e.Message == "gone"
+				case 2:
+					okContent = okContent && res.Statuses[k] == 204
+				}
+			}
+		}
+	} else {
+		var res *things.BatchResponse
+		res, err = tc.BatchDelete(keys)
+		if err == nil && res != nil {
+			nres, nerr, nstat = len(res.Results), len(res.Errors), len(res.Statuses)
+			for i, k := range keys {
+				switch outcome[i] {
+				case 0:
+					okContent = okContent && res.Results[k] != nil && res.Results[k].Status == 204
+				case 1:
+					e := res.Errors[k]
+					okContent = okContent && e != nil && e.Status != nil && *e.Status == 404 && e.Message != nil && *e.Message == "gone"
+				case 2:
+					okContent = okContent && res.Statuses[k] == 204
+				}
+			}
+		}
+	}
+	verif.Assert(len(m.calls) == 1, "batch call did not reach the resource exactly once")
+	verif.Assert(err == nil, "the resource answered the batch call but the client call failed")
+	var wres, werr, wstat int
+	for _, o := range outcome {
+		switch o {
+		case 0:
+			wres++
+		case 1:
+			werr++
+		case 2:
+			wstat++
+		}
+	}
+	verif.Assert(nres == wres && nerr == werr && nstat == wstat, "per-key outcomes of the batch call were lost or invented")
+	verif.Assert(okContent, "per-key outcome of the batch call differs from what the resource returned")
 	verif.Cover("fidelity")
 }
 
